@@ -90,6 +90,7 @@ class _Matcher(object):
                                       if self.is_bytes else pat.flags)
         self.ops = list(self.parsed)
         self.minwidth = self.parsed.getwidth()[0]
+        self._memo = {}
         self.multiline = bool(self.flags & re.MULTILINE)
         self.dotall = bool(self.flags & re.DOTALL)
 
@@ -144,15 +145,21 @@ class _Matcher(object):
         return _not(c) if neg else c
 
     def _test1(self, op, av, x):
-        """condition for a single-character op on element x"""
+        """condition for a single-character op on element x (memoised per
+        (pattern item, element): terms are interned, so ids are stable)"""
+        if op is sc.IN or op is sc.CATEGORY:
+            k = (id(av), x if isinstance(x, int) else -id(x) - 1)
+            memo = self._memo
+            r = memo.get(k)
+            if r is None:
+                r = memo[k] = (self._in(av, x),)
+            return r[0]
         if op is sc.LITERAL:
             return _rng(x, av, av)
         if op is sc.NOT_LITERAL:
             return _not(_rng(x, av, av))
         if op is sc.ANY:
             return True if self.dotall else _not(_rng(x, 10, 10))
-        if op is sc.IN:
-            return self._in(av, x)
         return None
 
     def _is_word(self, x):
